@@ -60,7 +60,7 @@ theorem childGet_childSet (cs : List (Level × Node)) (lv k : Level) (n : Node) 
 
 theorem childDel_cons (a : Level) (c : Node) (t : List (Level × Node)) (lv : Level) :
     childDel ((a, c) :: t) lv = if a = lv then childDel t lv else (a, c) :: childDel t lv := by
-  by_cases h : a = lv <;> simp [childDel, List.filter_cons, h]
+  by_cases h : a = lv <;> simp [childDel, h]
 
 theorem childGet_childDel (cs : List (Level × Node)) (lv k : Level) :
     childGet (childDel cs lv) k = if k = lv then none else childGet cs k := by
@@ -250,7 +250,7 @@ theorem Node.get_remove (n : Node) (p : List Level) (hp : p ≠ []) (q : List Le
             · subst hk
               obtain ⟨cm, ccs⟩ := c
               cases qs with
-              | nil => simp [hc]
+              | nil => simp
               | cons x xs => simp [hc, Node.get_cons, Node.children]
             · simp [hk]
       | cons r rs =>
